@@ -170,6 +170,19 @@ def writeVerdict (impl : List String) (total : Bytes) (panics : Bool) (failAt : 
         | none, true => if written != total.length then "FAIL:incomplete-without-failure" else "ok"
         | _, _ => "ok"
 
+/-- the harness runs every writer op twice: against a plain failing `io.Writer` and against one
+    that also implements `io.ByteWriter`; it appends `bytewriter:<obs>` only when the two differ -/
+def writeVerdict2 (impl : List String) (total : Bytes) (panics : Bool) (failAt : Option Nat) (exact : Bool) : String :=
+  let (a, b) := impl.span (fun t => !(t.startsWith "bytewriter:"))
+  match b with
+  | [] => writeVerdict a total panics failAt exact
+  | f :: more =>
+    let va := writeVerdict a total panics failAt exact
+    let vb := writeVerdict ((f.drop 11).toString :: more) total panics failAt exact
+    if va != "ok" then va
+    else if vb != "ok" then vb ++ ":through-io.ByteWriter"
+    else "FAIL:observation-depends-on-io.ByteWriter"
+
 /-- io.write -/
 def opWrite (args impl : List String) : Except String (String × String) := do
   match args with
@@ -182,7 +195,7 @@ def opWrite (args impl : List String) : Except String (String × String) := do
     let status := match r.1 with | .ok => "ok" | .err => "err" | .spin => "spin" | .panic => "panic"
     let model := showW status r.2.written r.2.w.acc
     let (total, panics) := totalBytes wops
-    return (model, writeVerdict impl total panics failAt (cap == 0 || lenient))
+    return (model, writeVerdict2 impl total panics failAt (cap == 0 || lenient))
   | _ => throw "bad io.write args"
 
 /-- io.dec: PROP only -/
@@ -220,7 +233,7 @@ def opEnc (args impl : List String) : Except String (String × String) := do
     let (t, rest) ← runP ty rest
     let (v, _) ← runP val rest
     if !(hasType t v) then return ("-", "FAIL:generator-produced-ill-typed-value")
-    return ("-", writeVerdict impl (serialize t v) false failAt true)
+    return ("-", writeVerdict2 impl (serialize t v) false failAt true)
   | _ => throw "bad io.enc args"
 
 def handle (name : String) (args impl : List String) : Option (Except String (String × String)) :=
